@@ -304,7 +304,7 @@ impl StateHandle {
         }
         .map_err(|_| FlexiLoggerError::Poison)?;
 
-        Ok(state.existing_log_files(selector))
+        Ok(state.existing_log_files(selector)?)
     }
 
     pub(super) fn validate_logs(&self, expected: &[(&'static str, &'static str, &'static str)]) {
